@@ -54,10 +54,23 @@ func callSink(pkg, recv, name string, idx int) func(*types.Info, ast.Node) ast.E
 // sendBufSink: `ds.sendBuf <- cmdDetail{Cmd: <non-constant>, ...}`; the item is the command name.
 func sendBufSink(info *types.Info, n ast.Node) ast.Expr {
 	s, ok := n.(*ast.SendStmt)
-	if !ok || !core.IsFieldNamed(info, s.Chan, "DbSyncer", "sendBuf") {
+	if !ok {
 		return nil
 	}
-	lit, ok := ast.Unparen(s.Value).(*ast.CompositeLit)
+	// the queue itself or a single-assignment alias of it (`out := ds.sendBuf`)
+	ch := ast.Unparen(s.Chan)
+	if d := pat.DefOf(info, identOf(ch)); d != nil {
+		ch = ast.Unparen(d)
+	}
+	if !core.IsFieldNamed(info, ch, "DbSyncer", "sendBuf") {
+		return nil
+	}
+	// the value: the literal, or a local holding it (`detail := cmdDetail{...}; ch <- detail`)
+	val := ast.Unparen(s.Value)
+	if d := pat.DefOf(info, identOf(val)); d != nil {
+		val = ast.Unparen(d)
+	}
+	lit, ok := val.(*ast.CompositeLit)
 	if !ok {
 		return nil
 	}
@@ -81,13 +94,40 @@ func sendBufSink(info *types.Info, n ast.Node) ast.Expr {
 // appendSink: `list = append(list, item)`.
 func appendSink(info *types.Info, n ast.Node) ast.Expr {
 	as, ok := n.(*ast.AssignStmt)
-	if !ok || len(as.Rhs) != 1 {
+	if !ok || len(as.Lhs) != len(as.Rhs) {
 		return nil
 	}
-	if b := pat.Stmt("_l = append(_l, _x)").Match(info, as, nil); b != nil {
-		return b["_x"].(ast.Expr)
+	for i := range as.Lhs { // also one pair of a tuple assignment
+		call, ok := ast.Unparen(as.Rhs[i]).(*ast.CallExpr)
+		if !ok || len(call.Args) != 2 || call.Ellipsis.IsValid() {
+			continue
+		}
+		if id, ok := call.Fun.(*ast.Ident); ok && id.Name == "append" && pat.Same(info, as.Lhs[i], call.Args[0]) {
+			return call.Args[1]
+		}
 	}
 	return nil
+}
+
+// rootExprOf strips conversions, & and * down to the variable (or returns e).
+func rootExprOf(info *types.Info, e ast.Expr) ast.Expr {
+	for e != nil {
+		switch v := ast.Unparen(e).(type) {
+		case *ast.CallExpr:
+			if tv, ok := info.Types[v.Fun]; ok && tv.IsType() && len(v.Args) == 1 {
+				e = v.Args[0]
+				continue
+			}
+		case *ast.UnaryExpr:
+			e = v.X
+			continue
+		case *ast.StarExpr:
+			e = v.X
+			continue
+		}
+		return ast.Unparen(e)
+	}
+	return e
 }
 
 // liftSink also accepts, as a sink, a call of a same-package helper whose body executes the
@@ -99,17 +139,31 @@ func liftSink(c *core.Ctx, base func(*types.Info, ast.Node) ast.Expr) func(*type
 			return e
 		}
 		for _, call := range cfgq.ExecCalls(n) {
-			h := c.FnOf(core.CalleeFunc(info, call))
-			if h == nil || h.Decl.Body == nil || h.Pkg.TypesInfo != info || call.Ellipsis.IsValid() {
+			if call.Ellipsis.IsValid() {
+				continue
+			}
+			var plist *ast.FieldList
+			var hg *cfgq.Graph
+			if h := c.FnOf(core.CalleeFunc(info, call)); h != nil && h.Decl.Body != nil && h.Pkg.TypesInfo == info {
+				plist, hg = h.Decl.Type.Params, cfgq.Of(c.Program, h)
+			} else if id, ok := ast.Unparen(call.Fun).(*ast.Ident); ok {
+				// a closure bound once to a local
+				if d := pat.DefOf(info, id); d != nil {
+					if lit, ok := ast.Unparen(d).(*ast.FuncLit); ok {
+						plist, hg = lit.Type.Params, cfgq.OfLit(c.Program, info, lit)
+					}
+				}
+			}
+			if hg == nil {
 				continue
 			}
 			var params []types.Object
-			for _, fl := range h.Decl.Type.Params.List {
+			for _, fl := range plist.List {
 				for _, nm := range fl.Names {
 					params = append(params, info.Defs[nm])
 				}
 			}
-			for _, p := range cfgq.Of(c.Program, h).Points(func(m ast.Node) bool { return base(info, m) != nil }) {
+			for _, p := range hg.Points(func(m ast.Node) bool { return base(info, m) != nil }) {
 				item := rootVar(info, base(info, p.Node()))
 				for j, po := range params {
 					if item != nil && po == item && j < len(call.Args) {
@@ -177,7 +231,11 @@ func sites(c *core.Ctx) {
 		for _, b := range tt.ViewBodies(c.Program, fn, "c06", siteOpaque(c)) {
 			x := b.View.X(c.Program)
 			for _, sp := range b.G.Points(func(n ast.Node) bool { return s.sink(info, n) != nil }) {
-				root := rootVar(info, s.sink(info, sp.Node()))
+				// the item that is sent, seen through single-assignment copies (`entry := e`)
+				root := rootVar(info, tt.Resolve(info, b.Root, rootExprOf(info, s.sink(info, sp.Node())), 3))
+				if root == nil {
+					root = rootVar(info, s.sink(info, sp.Node()))
+				}
 				if root != nil && b.Params[root] {
 					continue // the sink of a helper on its own parameter: analysed at the call sites
 				}
@@ -296,9 +354,26 @@ func checkCell(c *core.Ctx, s site, cl cell, fn *core.Fn, b tt.Body, x *tt.X, sp
 	subjArg := map[*ast.CallExpr]ast.Expr{} // the argument that stands for the item
 	var viaExprs []ast.Expr                 // what a proxy helper does with its parameter before calling the predicate
 	predObj := types.Object(pf.Obj)
-	for _, call := range core.Calls(b.Root, info, func(call *ast.CallExpr, callee types.Object) bool {
+	// calls of the predicate in this body and in the predicate closures it invokes
+	// (`keep := func() bool { return n > 0 && !filter.FilterDB(db) }; if keep() {`)
+	isPred := func(call *ast.CallExpr, callee types.Object) bool {
 		return funcValue(info, b.Outer, call.Fun) == types.Object(pf.Obj)
-	}) {
+	}
+	predCalls := core.Calls(b.Root, info, isPred)
+	for _, call := range core.Calls(b.Root, info, func(*ast.CallExpr, types.Object) bool { return true }) {
+		lit, _ := ast.Unparen(call.Fun).(*ast.FuncLit)
+		if id, ok := ast.Unparen(call.Fun).(*ast.Ident); ok && lit == nil {
+			if d, ok := tt.SingleDef(info, b.Outer, id); ok && d.Rhs != nil && d.Index == -1 {
+				lit, _ = ast.Unparen(d.Rhs).(*ast.FuncLit)
+			}
+		}
+		if lit != nil && len(lit.Body.List) == 1 {
+			if _, isRet := lit.Body.List[0].(*ast.ReturnStmt); isRet {
+				predCalls = append(predCalls, core.Calls(lit.Body, info, isPred)...)
+			}
+		}
+	}
+	for _, call := range predCalls {
 		if cl.tracked || root != nil && len(call.Args) > 0 && tt.MentionsResolved(info, b.Root, call.Args[0], root, 2) {
 			mine = append(mine, call)
 			if len(call.Args) > 0 {
@@ -766,301 +841,3 @@ func viaText(v string) string {
 }
 
 // rumpKeys: doFetch filters the scanned keys into a list when a key list is configured.
-func rumpKeys(c *core.Ctx) {
-	fn := c.Func(pkgRun, "dbRumperExecutor", "doFetch")
-	pf := c.Func(pkgFilter, "", "FilterKey")
-	if fn == nil || pf == nil {
-		return
-	}
-	info := fn.Pkg.TypesInfo
-	view := tt.ViewOf(c.Program, fn, "c06keys", nil)
-	g, x := view.G, view.X(c.Program)
-	key := "rump-keys/FilterKey"
-	keyListFuncs = map[string]bool{"doFetch": true}
-	for _, h := range view.Inlined {
-		keyListFuncs[h.Decl.Name.Name] = true
-	}
-	// the send: dre.keyChan <- &KeyNode{<key>, ...} where <key> is the element of a loop over the key list
-	var listObj types.Object
-	var send ast.Node
-	for _, p := range g.Points(func(n ast.Node) bool {
-		s, ok := n.(*ast.SendStmt)
-		return ok && core.IsFieldNamed(info, s.Chan, "dbRumperExecutor", "keyChan")
-	}) {
-		val := ast.Unparen(p.Node().(*ast.SendStmt).Value)
-		if u, ok := val.(*ast.UnaryExpr); ok && u.Op == token.AND {
-			val = ast.Unparen(u.X)
-		}
-		lit, ok := val.(*ast.CompositeLit)
-		if !ok || len(lit.Elts) == 0 {
-			continue
-		}
-		var keyExpr ast.Expr
-		for i, el := range lit.Elts {
-			if kv, isKV := el.(*ast.KeyValueExpr); isKV {
-				if id, ok := kv.Key.(*ast.Ident); ok && id.Name == "key" {
-					keyExpr = kv.Value
-				}
-			} else if i == 0 {
-				keyExpr = el
-			}
-		}
-		loop := x.LoopOf(p.Node())
-		list, isElem := tt.LoopElem(info, loop)
-		if keyExpr == nil || list == nil {
-			continue
-		}
-		if isElem(keyExpr) || isElem(tt.Resolve(info, view.Body, keyExpr, 3)) {
-			listObj, send = identObj(info, list), p.Node()
-		}
-	}
-	if listObj == nil {
-		c.Undecidedf("R3.matrix", key, fn.Decl.Pos(), "cannot find `keyChan <- &KeyNode{key, ...}` with the key being the element of a loop over a key list")
-		return
-	}
-	kl := &keyLister{c: c, info: info, pf: pf, body: view.Body, g: g, x: x, send: send, seen: map[types.Object]bool{}}
-	if kl.list(listObj, listObj, 3) == 0 {
-		c.Undecidedf("R3.matrix", key, fn.Decl.Pos(), "no filtered `keys = append(keys, key)` found for the key list of doFetch")
-	}
-}
-
-func identObj(info *types.Info, e ast.Expr) types.Object {
-	id, ok := ast.Unparen(e).(*ast.Ident)
-	if !ok {
-		return nil
-	}
-	return core.ObjOf(info, id)
-}
-
-// keyListFuncs: the functions whose handling of the rump key list was analysed.
-var keyListFuncs = map[string]bool{}
-
-type keyLister struct {
-	c    *core.Ctx
-	info *types.Info
-	pf   *core.Fn
-	body *ast.BlockStmt
-	g    *cfgq.Graph
-	x    *tt.X
-	send ast.Node // where the list is consumed
-	seen map[types.Object]bool
-}
-
-func (kl *keyLister) emptyFact(f string) func(cfgq.Fact) bool {
-	return func(ft cfgq.Fact) bool {
-		arg, pol, ok := lenTest(kl.info, ft.Expr)
-		if !ok {
-			return false
-		}
-		name, isConf := tt.IsConfField(kl.info, arg, f)
-		return isConf && name == f && ft.Val != pol
-	}
-}
-
-// unfiltered: the definition at node n makes top (the list that is sent) the unfiltered scan
-// result. That value may reach the send only when both key lists are empty: there must be no path
-// entry -> n -> send on which n's value survives (no other definition of top that does not extend
-// it) and no branch establishes that the list is empty.
-func (kl *keyLister) unfiltered(n ast.Node, top types.Object) {
-	np, ok := kl.g.Find(n)
-	if !ok {
-		return
-	}
-	kills := func(m ast.Node) bool {
-		if m == n {
-			return false
-		}
-		for _, d := range tt.DefsOf(kl.info, m, top) {
-			if d.Stmt == m && (d.Rhs == nil || !core.Mentions(kl.info, d.Rhs, top)) {
-				return true
-			}
-		}
-		return false
-	}
-	for _, f := range []string{fKB, fKW} {
-		empty := kl.emptyFact(f)
-		avoid := func(b *cfg.Block, si int) bool { return kl.x.Establishes(b, si, empty) }
-		w1 := kl.g.Path(cfgq.Query{From: kl.g.Entry(), Target: func(m ast.Node) bool { return m == np.Node() }, AvoidEdge: avoid})
-		var w2 []string
-		if w1 != nil {
-			w2 = kl.g.Path(cfgq.Query{From: np, After: true, Avoid: kills, Target: func(m ast.Node) bool { return m == kl.send }, AvoidEdge: avoid})
-		}
-		kl.c.Check("R3.matrix", "rump-keys/unfiltered-only-without-"+f, n.Pos(), w1 == nil || w2 == nil,
-			"the scanned keys may be copied unfiltered only when "+f+" is empty; otherwise an excluded key is dumped and copied by rump", append(w1, w2...)...)
-	}
-}
-
-// list checks every definition of the list variable obj (a carrier of the list top that is sent)
-// and returns the number of filtered appends found.
-func (kl *keyLister) list(obj, top types.Object, depth int) int {
-	c, info, g, x := kl.c, kl.info, kl.g, kl.x
-	key := "rump-keys/FilterKey"
-	why := "an excluded key is dumped and copied by rump"
-	if kl.seen[obj] || depth == 0 {
-		return 0
-	}
-	kl.seen[obj] = true
-	nAppend := 0
-	for _, d := range tt.DefsOf(info, kl.body, obj) {
-		as, ok := d.Stmt.(*ast.AssignStmt)
-		if !ok || d.Rhs == nil || d.Index != -1 {
-			if ok && d.Index >= 0 && obj == top {
-				kl.unfiltered(as, top) // result of a multi-value call: the scan itself
-			}
-			continue // var declaration
-		}
-		if _, ok := g.Find(as); !ok {
-			continue
-		}
-		if b := pat.Expr("append(_l, _x)").Match(info, d.Rhs, nil); b != nil && identObj(info, b["_l"].(ast.Expr)) == obj {
-			nAppend++
-			item := rootVar(info, b["_x"].(ast.Expr))
-			itemRoot := tt.Resolve(info, kl.body, b["_x"].(ast.Expr), 3)
-			var calls []*ast.CallExpr
-			for _, call := range core.Calls(kl.body, info, func(call *ast.CallExpr, callee types.Object) bool { return callee == types.Object(kl.pf.Obj) }) {
-				if len(call.Args) == 1 && (item != nil && rootVar(info, call.Args[0]) == item || tt.SameExpr(info, tt.Resolve(info, kl.body, call.Args[0], 3), itemRoot)) {
-					calls = append(calls, call)
-				}
-			}
-			if len(calls) == 0 {
-				if core.Mentions(info, kl.body, kl.pf.Obj) {
-					c.Undecidedf("R3.matrix", key, as.Pos(), "cannot relate the key that is appended to an evaluation of filter.FilterKey")
-				} else {
-					c.Failf("R3.matrix", key, as.Pos(), "a scanned key is put on the list of keys to copy without evaluating filter.FilterKey for it: %s", why)
-				}
-				continue
-			}
-			passFact := func(f cfgq.Fact) bool {
-				for _, call := range calls {
-					if ast.Unparen(f.Expr) == ast.Expr(call) {
-						return !f.Val
-					}
-				}
-				return false
-			}
-			ok, w := x.OnlyVia(cfgq.Point{}, as, passFact)
-			c.Check("R3.matrix", key, as.Pos(), ok, "a scanned key may be put on the list of keys to copy only after filter.FilterKey answered 'pass'; otherwise "+why, w...)
-			loop := x.LoopOf(as)
-			for _, call := range calls {
-				var w []string
-				for _, bk := range g.CFG.Blocks {
-					if !bk.Live || x.Cond(bk) == nil {
-						continue
-					}
-					for si := range bk.Succs {
-						mentions := x.Establishes(bk, si, func(f cfgq.Fact) bool { return ast.Unparen(f.Expr) == ast.Expr(call) }) ||
-							x.Establishes(bk, 1-si, func(f cfgq.Fact) bool { return ast.Unparen(f.Expr) == ast.Expr(call) })
-						if !mentions || len(bk.Succs) != 2 || x.Establishes(bk, si, passFact) || w != nil {
-							continue
-						}
-						w = x.Reach(tt.ReachQuery{From: cfgq.Point{B: bk}, FromSucc: si, Env: tt.Env{}, Target: func(n ast.Node) bool { return n == ast.Node(as) },
-							CutBlock: func(b2 *cfg.Block) bool {
-								return loop != nil && (b2.Kind == cfg.KindRangeLoop || b2.Kind == cfg.KindForLoop) && b2.Stmt == loop
-							}})
-					}
-				}
-				c.Check("R4.polarity", key, call.Pos(), w == nil, "'return true means not pass': a key for which filter.FilterKey answered true must not be put on the list of keys to copy; otherwise "+why, w...)
-			}
-			continue
-		}
-		rhs := ast.Unparen(d.Rhs)
-		if call, ok := rhs.(*ast.CallExpr); ok {
-			if id, ok := call.Fun.(*ast.Ident); ok && id.Name == "make" {
-				continue
-			}
-		}
-		if cl, ok := rhs.(*ast.CompositeLit); ok && len(cl.Elts) == 0 {
-			continue // an empty list
-		}
-		if core.IsNil(info, rhs) {
-			continue
-		}
-		// a copy of another list variable: the same list
-		if o, isVar := identObj(info, rhs).(*types.Var); isVar && !o.IsField() && o.Pkg() != nil && o.Parent() != o.Pkg().Scope() && kl.filtered(o, 3) {
-			nAppend += kl.list(o, top, depth-1)
-			continue
-		}
-		// the list is produced by a helper that could not be inlined: look at what it returns
-		if call, ok := rhs.(*ast.CallExpr); ok {
-			if h := c.FnOf(core.CalleeFunc(info, call)); h != nil && h.Decl.Body != nil && h.Pkg.TypesInfo == info {
-				hv := tt.ViewOf(c.Program, h, "c06keys", nil)
-				keyListFuncs[h.Decl.Name.Name] = true
-				okRets := true
-				core.Inspect(hv.Body, func(n ast.Node) bool {
-					r, isRet := n.(*ast.ReturnStmt)
-					if !isRet {
-						return true
-					}
-					o, _ := identObj(info, firstResult(r)).(*types.Var)
-					if len(r.Results) != 1 || o == nil || o.IsField() {
-						okRets = false
-						return true
-					}
-					hk := &keyLister{c: c, info: info, pf: kl.pf, body: hv.Body, g: hv.G, x: hv.X(c.Program), send: r, seen: map[types.Object]bool{}}
-					if hk.filtered(o, 3) {
-						nAppend += hk.list(o, o, 3)
-					} else {
-						hk.unfiltered(r, o)
-					}
-					return true
-				})
-				if !okRets {
-					c.Undecidedf("R3.matrix", key, call.Pos(), "the key list is produced by %s in an unrecognised way", h.Decl.Name.Name)
-				}
-				continue
-			}
-		}
-		// anything else: the unfiltered scan result (or an alias of it)
-		kl.unfiltered(as, top)
-	}
-	return nAppend
-}
-
-func firstResult(r *ast.ReturnStmt) ast.Expr {
-	if len(r.Results) == 0 {
-		return nil
-	}
-	return r.Results[0]
-}
-
-// filtered: the list variable o is built by appending (make/empty literal + append(o, ..)), as
-// opposed to being the scan result or an alias of it.
-func (kl *keyLister) filtered(o types.Object, depth int) bool {
-	if depth == 0 {
-		return false
-	}
-	appends := 0
-	for _, d := range tt.DefsOf(kl.info, kl.body, o) {
-		if d.Rhs == nil {
-			if _, isDecl := d.Stmt.(*ast.ValueSpec); isDecl {
-				continue
-			}
-			return false
-		}
-		if d.Index != -1 {
-			return false
-		}
-		rhs := ast.Unparen(d.Rhs)
-		if b := pat.Expr("append(_l, _x)").Match(kl.info, rhs, nil); b != nil && identObj(kl.info, b["_l"].(ast.Expr)) == o {
-			appends++
-			continue
-		}
-		if call, ok := rhs.(*ast.CallExpr); ok {
-			if id, ok := call.Fun.(*ast.Ident); ok && id.Name == "make" {
-				continue
-			}
-		}
-		if cl, ok := rhs.(*ast.CompositeLit); ok && len(cl.Elts) == 0 {
-			continue
-		}
-		if core.IsNil(kl.info, rhs) {
-			continue
-		}
-		if v, isVar := identObj(kl.info, rhs).(*types.Var); isVar && !v.IsField() && kl.filtered(v, depth-1) {
-			appends++
-			continue
-		}
-		return false
-	}
-	return appends > 0
-}
